@@ -358,6 +358,31 @@ func runPackage(c *fw.Ctx, idx int, o genOpts, record bool) ([]failure, *pkgMode
 			for j, ch := range chs {
 				k.page("epubdoc.Chapters", j, string(ch.Content))
 			}
+			// several views served by one Reader, in both orders
+			if t, err := er.Text(); err == nil {
+				k.stream("epubdoc.Reader.Text()", t)
+			}
+			if d, err := er.Document(); err == nil && d != nil && k.count("len(epubdoc.Reader.Document().Pages) after Text()", len(d.Pages)) {
+				for j, p := range d.Pages {
+					k.page("epubdoc.Reader.Document().Pages after Text()", j, pageText(p))
+				}
+			}
+			if md, err := er.Markdown(); err == nil {
+				k.stream("epubdoc.Reader.Markdown() after Document()", md)
+			}
+			er2, err := epubdoc.Open(path)
+			if err != nil {
+				return
+			}
+			defer er2.Close()
+			if d, err := er2.Document(); err == nil && d != nil && k.count("len(epubdoc.Reader.Document().Pages)", len(d.Pages)) {
+				for j, p := range d.Pages {
+					k.page("epubdoc.Reader.Document().Pages", j, pageText(p))
+				}
+			}
+			if t, err := er2.Text(); err == nil {
+				k.stream("epubdoc.Reader.Text() after Document()", t)
+			}
 		}
 	})
 	if record {
